@@ -71,6 +71,9 @@ def main():
                     nf = any("no-failing-input-found" in l for l in r.get("violation_lines", []))
                     how.append("%s%s" % (c, " (proof/correspondence only)" if nf else " (failing input)"))
             missed = [c for c, r in chk.items() if not r.get("detected")]
+            if not s.get("confirmed"):
+                out.append("* seeded `%s` (OBSOLETE on the final tree): %s - %s" % (s["name"], (s.get("summary") or "")[:200], s.get("note", "the demonstration no longer fails with the patch")))
+                continue
             out.append("* seeded `%s`: %s - needs: %s.  Detected by: %s%s" % (
                 s["name"], (s.get("summary") or "")[:200], (s.get("needs") or "")[:160], ", ".join(how) or "NONE",
                 ("; not by: " + ", ".join(missed)) if missed else ""))
